@@ -38,6 +38,11 @@ for crit in (GINI, ENT):
 quick.append(t(n=3, d=1, classes=2, canon=0))
 quick.append(t(secs=120, n=3, d=1, classes=3, canon=0))
 quick.append(t(secs=120, jobs=2, n=3, d=1, classes=3, wpat=-2, wmax=3))
+# the training rows again inside larger prediction batches (3 x 7 = 21, 3 x 15 = 45, 3 x 22 = 66 rows, 4 x 33 = 132)
+for rep in (7, 15, 22):
+    quick.append(t(n=3, d=1, classes=3, rep=rep))
+quick.append(t(n=3, d=2, classes=2, rep=11, secs=120, jobs=4))
+quick.append(t(secs=120, jobs=4, n=4, d=1, classes=3, rep=33))
 # tiny shapes
 quick.append(t(n=1, d=1, classes=2))
 quick.append(t(n=2, d=1, classes=2))
